@@ -348,6 +348,7 @@ def make_refcat(ra, dec, tol):
 
 
 def part_refcats(ck, rng):
+    from astropy.table import Table
     N = ck.n(110, 1200)
     pool = []
     for t in range(N):
@@ -389,9 +390,60 @@ def part_refcats(ck, rng):
         if t < 3:
             ck.sample({'object': 'RefCatalog', 'crval': list(crval), 'sources': n, 'footprint_tol': tol,
                        'predicate_holds': ok})
+    # --- three or more ROWS but only two distinct positions (repeated sources), and exactly collinear runs: the hull
+    #     degenerates to a segment and the footprint is the box of the two-source case
+    for t in range(ck.n(30, 300)):
+        crval = SKY[(t * 11 + 4) % len(SKY)]
+        tol = [1.0, 10.0, 0.5][t % 3]
+        kind = ['ABB', 'AABB', 'ABAB', 'A+expand(A,B)', 'equator run', 'meridian run'][t % 6]
+        w = mkwcs(crval, rng.random() * 360.0)
+        x0, y0 = 300 + 400 * rng.random(), 300 + 400 * rng.random()
+        d = [3.0, 30.0, 300.0][(t // 6) % 3] * (0.5 + rng.random())
+        a_ = 360.0 * rng.random()
+        pa = w.all_pix2world(np.array([x0]), np.array([y0]), 0)
+        pb = w.all_pix2world(np.array([x0 + d * math.cos(math.radians(a_))]), np.array([y0 + d * math.sin(math.radians(a_))]), 0)
+        A_, B_ = (float(pa[0][0]), float(pa[1][0])), (float(pb[0][0]), float(pb[1][0]))
+        grow = None
+        if kind == 'ABB':
+            rows = [A_, B_, B_]
+        elif kind == 'AABB':
+            rows = [A_, A_, B_, B_]
+        elif kind == 'ABAB':
+            rows = [A_, B_, A_, B_]
+        elif kind == 'A+expand(A,B)':
+            rows, grow = [A_], [A_, B_]
+        elif kind == 'equator run':
+            r0 = rng.choice([10.0, 359.9995, 180.0])
+            rows = [((r0 + k * 1e-4 * (1 + t % 3)) % 360.0, 0.0) for k in range(4)]
+        else:
+            r0 = rng.choice([10.0, 0.0, 222.0])
+            rows = [(r0, -0.0003 + k * 2e-4) for k in range(4)]
+        ck.count('catalog_kind', 'refcat-degenerate')
+        ck.count('refcat_degenerate_kind', kind)
+        allrows = rows + (grow or [])
+        ra = np.array([p_[0] for p_ in allrows])
+        dec = np.array([p_[1] for p_ in allrows])
+        rp = {'object': 'RefCatalog', 'RA': list(map(float, ra)), 'DEC': list(map(float, dec)), 'footprint_tol': tol,
+              'tightness': False, 'rows': kind,
+              'how': 'RefCatalog(Table([RA, DEC])) with repeated / collinear rows' + (
+                  '; first row only, then expand_catalog(the other rows)' if grow else '')}
+        try:
+            rc = make_refcat(ra[:len(rows)], dec[:len(rows)], tol)
+            if grow:
+                rc.expand_catalog(Table([list(ra[len(rows):]), list(dec[len(rows):])], names=('RA', 'DEC')))
+            poly = rc.polygon
+        except Exception as e:       # noqa: BLE001
+            rp.update(kind='RefCatalog-footprint-failed-for-degenerate-rows', exception=repr(e),
+                      expected='a footprint_tol box around the distinct positions')
+            ck.violation(rp)
+            continue
+        v = s2c(ra, dec)
+        ok = check_containment(ck, 'refcat-degenerate-rows', poly, [v], rp)
+        if kind in ('ABB', 'AABB', 'ABAB', 'A+expand(A,B)'):
+            ok = check_box(ck, rc, s2c(np.array([A_[0], B_[0]]), np.array([A_[1], B_[1]])), tol, rp) and ok
+        ck.case(('refcat-degenerate', kind, list(map(float, ra)), list(map(float, dec)), tol), True)
     # --- growth histories: a catalog that starts with 1..5 sources and is extended by expand_catalog (as align_wcs
     #     does with expand_refcat=True) has, after every step, the footprint of the sources it then holds
-    from astropy.table import Table
     for t in range(ck.n(40, 500)):
         crval = SKY[(t * 5 + 1) % len(SKY)]
         tol = [1.0, 10.0, 0.5, 30.0][t % 4]
